@@ -51,6 +51,7 @@ enum cpr_flags {
 	CPR_strict_OER_visibility	= 0x01,
 	CPR_strict_PER_visibility	= 0x02,
 	CPR_simulate_fbless_SIZE	= 0x04,
+	CPR_PER_root_only		= 0x08,	/* Stop at the extension marker */
 };
 asn1cnst_range_t *asn1constraint_compute_OER_range(const char *dbg_name,
 	asn1p_expr_type_e expr_type,
